@@ -3,9 +3,9 @@
 # Confirms a seeded change in a scratch worktree at /repo's HEAD: applies, builds, runs the
 # repository's test suite (must equal the baseline), runs the demo with and without the change.
 O="$1"; X="$2"
-WT=/tmp/cm/wt
-export CARGO_TARGET_DIR=/tmp/cm/target CARGO_NET_OFFLINE=true
-mkdir -p /tmp/cm
+CM="${CM:-/tmp/cm}"; WT=$CM/wt
+export CARGO_TARGET_DIR=$CM/target CARGO_NET_OFFLINE=true
+mkdir -p $CM
 git -C /repo worktree remove --force $WT >/dev/null 2>&1
 git -C /repo worktree add --detach $WT HEAD >/dev/null 2>&1 || { echo "worktree failed"; exit 2; }
 cd $WT
@@ -26,5 +26,5 @@ echo "--- demo WITH mutant"; run_demo
 rm -f crates/$crate/tests/${X}_demo.rs
 echo "--- existing tests WITH mutant"
 cargo test --workspace --no-fail-fast --offline 2>&1 | grep -E "^test result|FAILED|failed" | sort | uniq -c | head -12
-git diff > /tmp/cm/current.patch
+git diff > $CM/current.patch
 cd /; git -C /repo worktree remove --force $WT
